@@ -38,6 +38,9 @@ type c06Pkt struct {
 }
 
 type c06Scenario struct {
+	Mode     string   `json:"mode,omitempty"` // "" = in flight, "exit", "alloc"
+	Stream   []byte   `json:"stream,omitempty"`
+	BodyLen  int      `json:"body_len,omitempty"`
 	Inflight bool     `json:"inflight"`
 	Handler  bool     `json:"handler"`
 	Reqs     []c06Req `json:"reqs"`
@@ -336,7 +339,7 @@ func c06RunInflight(sc *c06Scenario) c06InflightObs {
 		switch e.Kind {
 		case "hand":
 			o.Events = append(o.Events, "Hand "+cLibMsg(e.Msg))
-			o.Desc = append(o.Desc, fmt.Sprintf("hand(q%d,id%d)", e.Msg.QoS, e.Msg.ID))
+			o.Desc = append(o.Desc, fmt.Sprintf("hand(q%d,id%d,topic=%x,payload=%x)", e.Msg.QoS, e.Msg.ID, e.Msg.Topic, e.Msg.Payload))
 		case "write":
 			id := 0
 			if len(e.Pkt) >= 4 {
